@@ -144,7 +144,13 @@ def run_scenario(spec):
         if kill and not killed:
             ready = [e for e in ev if e[1] == "executor-ready"]
             # "idle" = the cluster is up and registered (the Bridge exists), nothing has been dispatched yet or ever will be on that host
-            trigger = len(ready) == len(hosts) and "b" in bridge_box and (kill["at"] == "idle" or any(e[1] == "body-enter" for e in ev))
+            hid_k = hosts[kill["host"]]["id"]
+            if kill["at"] == "after_output":
+                # a task sequence has finished on that host: its shm server holds at least one dataset, the run still goes on
+                moment = any(e[1] == "seq-end" and e[3] and e[3][0].startswith(hid_k + ".") for e in ev)
+            else:
+                moment = kill["at"] == "idle" or any(e[1] == "body-enter" for e in ev)
+            trigger = len(ready) == len(hosts) and "b" in bridge_box and moment
             if trigger:
                 try:
                     pids = json.load(open(os.path.join(tmp, f"pids-{hosts[kill['host']]['id']}.json")))
